@@ -53,6 +53,22 @@ def sessions(tier: str, seed: int, kinds=cr.vloop.CLIENTS):
                 recs.append(rec)
                 shape = "whole" if not cuts else "bytewise" if len(cuts) == len(stream) - 1 else f"{len(cuts)}-cut"
                 meta.append((kind, cb_name, shape, cuts[:8]))
+        # a stream in which packets repeat (identical single frames, a fast-packet message re-sent under the same
+        # sequence counter with the same first frame, stray repeats of a last frame): the client must hand every
+        # packet to its decoder, whatever it has seen before
+        packets = cr.wire_packets(kind, cr.history_messages(rng), rng, with_bad=(tier == "thorough"))
+        stream = b"".join(p for p, _ in packets)
+        n = len(stream)
+        segs = [[], list(range(1, n))] + [[c] for c in range(1, n, max(1, n // {"quick": 12, "thorough": 60, "selftest": 3}[tier]))]
+        for _ in range({"quick": 6, "thorough": 40, "selftest": 1}[tier]):
+            segs.append(sorted(rng.sample(range(1, n), rng.randint(2, 12))))
+        for j, cuts in enumerate(segs):
+            cb_name, cb = (("ok", "ok"), ("raise-odd", lambda i: "raise" if i % 2 else "ok"), ("slow", "slow"))[j % 3 if j > 1 else 0]
+            rec, _ = cr.receive_session(kind, packets, cr.cut(stream, cuts), recv_cb=cb, sample_after=False)
+            if kind == "waveshare":
+                rec["canonical"] = False
+            recs.append(rec)
+            meta.append((kind, cb_name, "whole" if not cuts else "bytewise" if len(cuts) == n - 1 else f"{len(cuts)}-cut", cuts[:8]))
     return recs, meta
 
 
